@@ -103,7 +103,7 @@ PROPS = {
                             mc("Core-abandon-sc-2x2", ops=("send", "call", "drop", "abandon"), cfgs="CfgsB1", kinds="InitKindsSC", must_cover=("Abandon",))]},
         "gen": {"quick": [gen("g-sc-b1-2x2", "Main_SC_B1", ops=("send", "call", "drop"))], "thorough": [gen("g-sc-b1-2x2", "Main_SC_B1", ops=("send", "call", "drop"), scripts="ScriptsCore"), gen("g-cancel-2x2", "Main_Addr2_B1", ops=("send", "call"), faults=("cancel",), maxfaults=1)]},
         "live": [(mc("Live-2x2", ops=("send", "call", "ping", "stop", "drop", "await"), scripts="ScriptsPlain", cfgs="CfgsB1"), ["L_Resolves"]), (mc("Live-sc-2x2", ops=("send", "call", "drop"), scripts="ScriptsPlain", cfgs="CfgsB1", kinds="InitKindsSC"), ["L_Resolves"])],
-        "families": [("core", 200, 2000), ("life", 100, 1000), ("fail", 100, 1000), ("awaiters", 100, 1000), ("registry", 100, 1000), ("mix", 120, 1200)],
+        "families": [("core", 200, 2000), ("life", 100, 1000), ("fail", 100, 1000), ("awaiters", 100, 1000), ("registry", 100, 1000), ("stream", 100, 1000), ("mix", 120, 1200)],
         "relevant": r'"op":"call"', "relevant_min": 1,
     },
     "C03": {
